@@ -36,10 +36,23 @@ def make(t, labels):
         # channels deliberately not ascending: storage order, not channel order, is what the lookups follow
         return gen.emg(n, [((7 * (i + 1)) % 5 + 10 * (i % 2), gen.mk_emgsig(n, (True, i % 2 == 0), lab, i)) for i, lab in enumerate(labels)])
     # value counts 0, 1, 2 by position: an event without values must be found like any other
-    return gen.events([gen.mk_event(lab, 1, i % 3, i) for i, lab in enumerate(labels)])
+    evs = [gen.mk_event(lab, 1, i % 3, i) for i, lab in enumerate(labels)]
+    for e in evs:
+        if len(e["values"]) >= 2:
+            e["values"][-1] = np.nan  # an unknown instant: an item that is not equal to itself value-wise is still a member
+    return gen.events(evs)
+
+
+def full_width(lab):
+    """The label as other software may store it: filling all 256 bytes, no terminator."""
+    return lab if lab == "" else lab + "~" * (256 - len(lab))
 
 
 def make_block(t, labels, origin):
+    if origin == "foreign":
+        labels = tuple(full_width(x) for x in labels)
+        sp = make(t, labels)
+        return sp, specs.lib_decode(t, sp["format"], R.encode_block(sp, full_ok=True))[0]
     sp = make(t, labels)
     b = specs.build(sp)
     if origin == "decoded":
@@ -49,7 +62,9 @@ def make_block(t, labels, origin):
 
 def check_one(t, labels, origin, acc):
     sp, b = make_block(t, labels, origin)
-    return check_block(t, b, sp, labels, f"{R.NAMES[t]} labels={list(labels)} ({origin})", acc)
+    if origin == "foreign":
+        labels = tuple(full_width(x) for x in labels)
+    return check_block(t, b, sp, labels, f"{R.NAMES[t]} labels={[x[:6] for x in labels]} ({origin})", acc, encodable=origin != "foreign")
 
 
 EDITS = ("relabel", "remove", "append")
@@ -114,9 +129,9 @@ def check_edited(t, labels, origin, edit, acc):
     return check_block(t, b, sp, labels2, f"{where0} after {edit}", acc, after_edit=edit[0])
 
 
-def check_block(t, b, sp, labels, where, acc, after_edit=None):
+def check_block(t, b, sp, labels, where, acc, after_edit=None, encodable=True):
     name = R.NAMES[t]
-    before = specs.lib_encode(b)
+    before = specs.lib_encode(b) if encodable else None  # (a block with full-width foreign labels can be read, not written)
 
     def V(clause, detail, extra=""):
         extra = ":".join(x for x in (extra, f"after-{after_edit}" if after_edit else "") if x)
@@ -227,7 +242,7 @@ def check_block(t, b, sp, labels, where, acc, after_edit=None):
             raise
         except Exception as e:  # noqa: BLE001
             raise V("unsupported-key-wrong-exception", f"{key!r} in block raised {type(e).__name__}", "in")
-    if specs.lib_encode(b) != before or [x for x in iter(b)] != items or any(x is not y for x, y in zip(iter(b), items)):
+    if (encodable and specs.lib_encode(b) != before) or [x for x in iter(b)] != items or any(x is not y for x, y in zip(iter(b), items)):
         raise V("lookup-changed-block", "encoding / item list differs after the lookups")
     return "coherent"
 
@@ -247,7 +262,7 @@ def _shard(shard):
                 acc.n["traces"] += 1
             except core.Violation as v:
                 acc.violation(v.clause, v.sig, {"type": t, "labels": list(labels), "origin": origin}, v.detail)
-            for edit in edits_for(labels):
+            for edit in (edits_for(labels) if origin != "foreign" else ()):
                 acc.n["states"] += 1
                 acc.n["evaluations"] += 1
                 acc.n["nontrivial"] += 1
@@ -264,7 +279,7 @@ def _shard(shard):
 
 def run(tier):
     _shard.tier = tier
-    return core.pmap(__name__, "_shard", [(t, o) for t in TYPES for o in ("built", "decoded")])
+    return core.pmap(__name__, "_shard", [(t, o) for t in TYPES for o in ("built", "decoded", "foreign")])
 
 
 def replay(w):
